@@ -88,9 +88,56 @@ def replay(rec):
         res.append(('C17.c:rows:extra', 'ok' if not extra else 'mismatch', 'unexplained row groups %s' % extra))
         if r >= 2:
             res.extend(grouped(rec, nodes, grid_fun))
+        if r == 1:
+            try:
+                res.extend(infcons(rec))
+            except Exception as e:
+                res.append(('C17.c:rows:inf', 'error', '%s: %s' % (type(e).__name__, (str(e).splitlines() or [''])[-1][:200])))
         return {'results': res, 'error': None}
     except Exception as e:
         return {'results': res + [('C17.c', 'error', '%s: %s' % (type(e).__name__, (str(e).splitlines() or [''])[-1][:200]))], 'error': traceback.format_exc()}
+
+
+def infcons(rec):
+    """grid='inf' constraints under SplineMethod: rows = bounds on the B-spline coefficients of the constrained member."""
+    sc = rec['sc']; L = sc['L']; N = sc['N']
+    from rockit import GeometricGrid, UniformGrid
+    ocp = Ocp(t0=fl(sc['t0']), T=fl(sc['T']))
+    xs = [ocp.state() for _ in range(L - 1)]
+    u = ocp.control()
+    chain = xs + [u]
+    for i in range(L - 1): ocp.set_der(xs[i], chain[i + 1])
+    ocp.subject_to(chain[0] + 0.5 <= 7, grid='inf')
+    ocp.subject_to(-6 <= (chain[1] - 0.5 <= 1.5), grid='inf')
+    ocp.subject_to(ocp.at_t0(chain[0]) == 0.5, meta=meta('bnd0'))
+    ocp.add_objective(ocp.at_tf(chain[0]) ** 2)
+    ocp.solver('ipopt')
+    ocp.method(SplineMethod(N=N, grid=GeometricGrid(2, local=True) if sc['g'] == 'geo' else UniformGrid()))
+    quiet(lambda: ocp._transcribed)
+    opti, vx, vp = _inputs(ocp)
+    nx = vx.numel(); pv = np.zeros(vp.numel())
+    rng = np.random.RandomState(5)
+    pts = [(rng.uniform(0.5, 1.5, nx), pv), (rng.uniform(-1.5, -0.5, nx), pv)]
+    tg, C = quiet(ocp.sample, chain[0], grid='gist')
+    loc = locate(C, opti, pts)
+    xv = np.zeros(nx)
+    for l, cval in zip(loc, rec['coef']): xv[l[0]] = fl(cval) / l[1]
+    adv = opti.advanced
+    g = np.array(ca.Function('g', [vx, vp], [opti.g])(xv, pv)).reshape(-1)
+    lb = np.array(ca.Function('g', [vx, vp], [opti.lbg])(xv, pv)).reshape(-1)
+    ub = np.array(ca.Function('g', [vx, vp], [opti.ubg])(xv, pv)).reshape(-1)
+    got = []
+    for i in range(opti.ng):
+        try:
+            st = opti.user_dict(adv.g_lookup(i)).get('stacktrace')
+            cid = st.get('cid') if isinstance(st, dict) else None
+        except Exception:
+            cid = None
+        if cid == 'bnd0': continue
+        if np.isfinite(ub[i]): got.append(ub[i] - g[i])
+        if np.isfinite(lb[i]): got.append(g[i] - lb[i])
+    want = rec['inf']['m0'] + rec['inf']['m1hi'] + rec['inf']['m1lo']
+    return [('C17.c:rows:inf',) + bag_compare(got, want)]
 
 
 def grouped(rec, nodes, grid_fun):
